@@ -78,6 +78,8 @@ type decoded struct {
 }
 
 func (s *symbol05) decode(m [][]bool) (d decoded) {
+	enter("fault/hang", "fault/hang/"+s.tr.Sym, s.tr, "decoding "+s.describe())
+	defer leave()
 	defer func() {
 		if r := recover(); r != nil {
 			d.pan = r
@@ -119,6 +121,8 @@ func isChecksum(err error) bool {
 // send builds the symbol with the chosen sender. It returns nil, "" when the
 // sender refuses (outside C05).
 func send(tr *Trace05) (s *symbol05, skip string, f *fail) {
+	enter("writer/hang", "writer/hang/"+tr.Sym, tr, "the writer did not return (outside C05 unless the reader is involved)")
+	defer leave()
 	defer func() {
 		if r := recover(); r != nil {
 			s, skip, f = nil, fmt.Sprintf("sender panicked: %v", r), nil
@@ -742,6 +746,7 @@ func C05() *kit.Spec {
 		Run: func(c *kit.Ctx) {
 			j := jobs(c.Tier)[c.Run]
 			r := c.RNG
+			watchCtx = c
 			probe := func(p string) { c.Count(p, 1) }
 			var tr *Trace05
 			switch j.kind {
@@ -836,6 +841,7 @@ func C05() *kit.Spec {
 				c.Fatal("bad trace: " + err.Error())
 				return
 			}
+			watchCtx = c
 			_, f := exec05(tr, func(string) {})
 			if f != nil {
 				report05(c, tr, f, false)
